@@ -399,6 +399,63 @@ class ReadyFut(ModelObj):
             it.drop_value(self.v)
 
 
+class ActionFut(ModelObj):
+    """a tell/ask issued by a scripted hook: reports the life cycle of the operation (first poll,
+    completion, cancellation, panic) so that monitors can tell which asks are in flight"""
+    type_name = "ActionFut"
+
+    def __init__(self, w, fut, aid, by, kind, target):
+        self.w, self.fut, self.aid, self.by, self.kind, self.target = w, fut, aid, by, kind, target
+        self.polled = False
+        self.over = False
+
+    def poll(self, it, cx):
+        if not self.polled:
+            self.polled = True
+            it.ex.event(ev="action_polled", aid=self.aid, by=self.by)
+        try:
+            r = self.w.poll_future(it, self.fut, cx)
+        except RustPanic as p:
+            self.over = True
+            it.ex.event(ev="action_panicked", aid=self.aid, by=self.by, target=self.target, msg=p.msg[:100])
+            raise
+        if r.variant == "Ready":
+            self.over = True
+            it.ex.event(ev="action_done", aid=self.aid, by=self.by, result=self.w.describe(r.fields[0]))
+        return r
+
+    def drop(self, it):
+        if not self.over:
+            self.over = True
+            it.ex.event(ev="action_dropped", aid=self.aid, by=self.by)
+        it.drop_value(self.fut)
+
+
+class JoinAll(ModelObj):
+    """join!(f1, f2, ..): polls every unfinished member in order; Ready(()) when all are done"""
+    type_name = "JoinAll"
+
+    def __init__(self, w, futs):
+        self.w, self.futs, self.done = w, list(futs), [False] * len(futs)
+
+    def poll(self, it, cx):
+        for i, f in enumerate(self.futs):
+            if self.done[i]:
+                continue
+            r = self.w.poll_future(it, f, cx)
+            if r.variant == "Ready":
+                self.done[i] = True
+                it.ex.event(ev="hook_action_done", hook="join", actor="?", result=self.w.describe(r.fields[0]))
+                it.drop_value(f)
+        return mk_ready(UNIT) if all(self.done) else mk_pending()
+
+    def drop(self, it):
+        for i, f in enumerate(self.futs):
+            if not self.done[i]:
+                self.done[i] = True
+                it.drop_value(f)
+
+
 class CatchUnwind(ModelObj):
     """futures::FutureExt::catch_unwind: a panic of the inner future becomes Ready(Err(payload))"""
     type_name = "CatchUnwind"
@@ -524,6 +581,16 @@ class HookFuture(ModelObj):
                     continue
                 continue
             break
+        if isinstance(self.yields_left, tuple) and self.yields_left[0] == "sleep":
+            # the hook takes a given amount of virtual time (a sleep registered with the timer, so
+            # that a blocking caller's clock jump can reach it)
+            w.acc(("clock",), False)
+            if self.info.get("_wake_at") is None:
+                self.info["_wake_at"] = w.now + self.yields_left[1]
+                w.deadlines.append(self.info["_wake_at"])
+            if not it.ex.branch_bool(w.zge(w.now, self.info["_wake_at"])):
+                return mk_pending()
+            self.yields_left = 0
         if self.yields_left == "tick":
             # a periodic hook: waits for the (virtual) timer, i.e. until the clock has moved
             w.acc(("clock",), False)
@@ -807,11 +874,17 @@ class World:
             args = [refv, msg]
             if kind.endswith("_t"):
                 args.append(self.mk_duration(act[3]))
-            it.ex.event(ev="action_start", kind=kind, target=act[1], msg=self.describe(msg.fields[0]), by=hook.actor_name if hook else None)
-            return self.call_method(it, "ActorRef", meth, args)
+            self.action_seq = getattr(self, "action_seq", 0) + 1
+            aid = self.action_seq
+            it.ex.event(ev="action_start", kind=kind, target=act[1], msg=self.describe(msg.fields[0]), by=hook.actor_name if hook else None, aid=aid)
+            return ActionFut(self, self.call_method(it, "ActorRef", meth, args), aid, hook.actor_name if hook else None, kind, act[1])
         if kind == "yield":
             from .sim import Yield
             return Yield()
+        if kind == "join":
+            # futures::join!(a, b, ..): the sub-actions are started in order and awaited together
+            futs = [self.start_action(it, sub, hook) for sub in act[1:]]
+            return JoinAll(self, [f for f in futs if f is not None])
         if kind == "ask_then_panic":
             # an ask to a peer is in flight (pinned across a join!/select!) when the same hook panics
             fut = self.start_action(it, ("ask", act[1], act[2]), hook)
